@@ -152,14 +152,28 @@ def r1_layout(ctx):
         idx = [k for k, pvv in lb['pre'].items() if isinstance(pvv, Rat) and pvv.eq(C(1)) and
                isinstance(lb['post'].get(k), Rat) and
                lb['post'][k].eq(loopvar(lid, k) + C(1))]
-        uses = bandk is not None and idx and f"loopvar#{lid}('{idx[0]}')" in vkey(bandk)
-        t = lb['node'].test if isinstance(lb['node'], ast.While) else None
-        test_ok = isinstance(t, ast.Compare) and len(t.ops) == 1 and isinstance(t.ops[0], ast.Lt) and idx and \
-            isinstance(t.left, ast.Name) and t.left.id == idx[0] and isinstance(t.comparators[0], ast.Call) and \
-            isinstance(t.comparators[0].func, ast.Name) and t.comparators[0].func.id == 'len'
-        ctx.check('R1.runs', f'{s0} band walk', bool(uses and test_ok and band0 is not None and vkey(band0).endswith(",'0')")),
+        node = lb['node']
+        from ..pattern import mexpr
+        if isinstance(node, ast.For):
+            # for <band> in <ranges>[1:]  - the same walk, written on the elements
+            bsl = mexpr('V_l[1:]', node.iter)
+            tv = node.target.id if isinstance(node.target, ast.Name) else None
+            uses = bandk is not None and tv is not None and f"loopvar#{lid}('{tv}')" in vkey(bandk)
+            test_ok = bsl is not None
+            walked = bsl['V_l'] if bsl else None
+            t = node.iter
+        else:
+            uses = bandk is not None and idx and f"loopvar#{lid}('{idx[0]}')" in vkey(bandk)
+            t = node.test if isinstance(node, ast.While) else None
+            bln = mexpr('V_i < len(V_l)', t) if t is not None else None
+            test_ok = bln is not None and bool(idx) and bln['V_i'] == idx[0]
+            walked = bln['V_l'] if bln else None
+        # the first band is element 0 of the list that is walked
+        first_of = [b_['V_l'] for n_ in walk_no_nested(f.node) for b_ in [mexpr('V_l[0]', n_)] if b_]
+        ctx.check('R1.runs', f'{s0} band walk', bool(uses and test_ok and band0 is not None and vkey(band0).endswith(",'0')") and
+                                                     walked in first_of),
                   key(f, 'band-walk'), 'bands are not walked as common_range[0], then [1] .. [len-1] in steps of 1',
-                  f'index {idx}; test {ast.unparse(t) if t is not None else None}')
+                  f'index {idx}; walk {ast.unparse(t) if t is not None else None}')
         # tail
     # tail run: total - (pre_len - pre_v + v_post) must be n_max - v_post ; already implied by R1.length + the invariant
     ctx.need('R1.length', 2)
